@@ -11,6 +11,8 @@ claimed={
          "injectivity of user-supplied formatters is not assumed or needed (congruence); strings are uninterpreted (strcat/substr/ToLower).", "5.12"),
  "C13": ("doCall never exits by panic; every panic of the reflective call is recovered and converted to the error produced from method name and raw payload; handle then sends exactly one error reply, runs done, writes no result, and has an empty frame (modifies nothing).",
          "panics in user codecs outside doCall and fatal runtime errors are outside the claim; methods of the panic payload are only invoked by fmt (which tolerates panicking String/Error).", "5.13"),
+ "C14": ("every WriteJSON/WriteMessage/NextWriter on the websocket, every use and Close of the message writer, and the replacement of the connection happen with the connection's writeLk held (path-sensitive lockset); locks are released on every path and never re-acquired; acquisition order follows the declared acyclic order; guarded-by discipline for inflight, handling, chanHandlers, incomingErr; every field of wsConn is classified guarded / immutable-after-construction / declared unsync, so new shared state without a synchronisation class is reported; nextWriter: one writer = one message, callback exactly once.",
+         "gorilla/websocket honours its documented concurrency contract (one concurrent writer, one reader; Close/WriteControl free); reads of the fields declared `unsync` (conn, incoming, stopPings, chanCtr) are not ordered by a lock by design and are listed, not checked; writes before the first goroutine is started in handleWsConn are treated as construction.", "5.14"),
  "C19": ("HasPerm result == membership of the required permission in (attached set if a []Permission is attached, even empty or nil, else the defaults), for all slices (loop invariant); WithPerm attaches exactly its argument; proxy wrapper calls the implementation iff HasPerm, else 0 calls and an error; HTTP handler: token extraction, 401 paths never call Next, Verify sees exactly the presented token, attached permissions = verifier result.",
          "reflect.MakeFunc/Call and context.WithValue/Value are axiomatised; strings uninterpreted.", "5.19"),
 }
